@@ -477,9 +477,12 @@ class HTMLParserTreeBuilder(HTMLTreeBuilder):
         try:
             parser.feed(markup)
             parser.close()
-        except AssertionError as e:
+        except (AssertionError, ValueError) as e:
             # html.parser raises AssertionError in rare cases to
             # indicate a fatal problem with the markup, especially
             # when there's an error in the doctype declaration.
+            # It raises ValueError when an attribute value holds a
+            # decimal character reference with more digits than
+            # sys.int_max_str_digits allows (html.unescape).
             raise ParserRejectedMarkup(e)
         parser.already_closed_empty_element = []
